@@ -43,7 +43,13 @@ fn decode(ctx: &Ctx, tape: &[u32], disk: Option<DiskCfg>) -> OrdCase {
             post.push(format!("delete from {} where {}", td.name, p.print(Dialect::Rl)));
         }
     }
-    let mut query = {
+    // one in five (where a table has an INT key): a scan of one table, ordered by a key column
+    // (the leading or another one of a composite key) or any column, with or without a key range
+    let keyed: Vec<&TableDef> = db.schema.iter().filter(|td| td.cols.iter().any(|c| c.pk && c.ty == Ty::Int)).collect();
+    let mut query = if !keyed.is_empty() && t.chance(1, 5) {
+        let td = keyed[t.pick(keyed.len())];
+        key_range_query(&mut t, td).unwrap()
+    } else {
         let mut g = Gen { t: &mut t, cfg: cfg.clone(), schema: &db.schema, alias_no: 0 };
         g.query(0)
     };
@@ -183,6 +189,12 @@ fn test(ctx: &Ctx, case: &OrdCase, st: &mut Stats) -> Verdict {
                     st.class("multi-key");
                 }
                 st.class(if case.db.disk.is_some() { "engine-disk" } else { "engine-memory" });
+                if case.db.schema.iter().any(|td| td.table_pk.len() == 1) {
+                    st.class("schema-has-table-level-key");
+                }
+                if case.db.schema.iter().any(|td| td.table_pk.len() >= 2) {
+                    st.class("schema-has-composite-key");
+                }
                 // physical order differs from the requested order?
                 let mut sorted_base = r0.clone();
                 sorted_base.sort_by(|a, b| cmp_keys(q, a, b));
@@ -230,11 +242,18 @@ fn test(ctx: &Ctx, case: &OrdCase, st: &mut Stats) -> Verdict {
                 }
             }
             _ => {
-                st.class(&match panics.first() {
-                    Some(p) => format!("no-answer:{}", panic_sig(p)),
-                    None => "no-answer:error".to_string(),
-                });
-                Verdict::Discard("a variant returned an error (executability is decided by C17)")
+                // the variant that failed (the base query first: if it fails the others say nothing)
+                let bad = [&base, &ordered, &full].into_iter().find(|o| !matches!(o, Out::Rows(_))).unwrap();
+                match no_answer(bad, &panics) {
+                    Ok(class) => {
+                        st.class(&class);
+                        Verdict::Discard("a variant returned an error (executability is decided by C17)")
+                    }
+                    Err(sig) => fail(
+                        sig,
+                        format!("a variant of the query fails outside planning: {} {:?}\n  sql: {}\n  engine: {:?}\n  post-load statements: {:?}", bad.brief(), panics, case.sql_full, case.db.disk, case.post),
+                    ),
+                }
             }
         };
         close(&case.db, &db).await;
